@@ -803,6 +803,7 @@ void Parser::parse_context_hunk(std::vector<PatchLine>& old_lines, LineNumber& o
         if (!parse_range(new_start_line, new_end_line))
             throw std::runtime_error("Could not parse expected range!");
 
+        auto pos = m_file.tellg();
         get_line(line, &newline);
         if (m_file.eof())
             return;
@@ -810,6 +811,13 @@ void Parser::parse_context_hunk(std::vector<PatchLine>& old_lines, LineNumber& o
         // Check if we have a 'to-file' that has been omitted, and we have reached the next patch.
         if (starts_with(line, "**********"))
             return;
+
+        // Or if it has been omitted for the last hunk, and we have reached whatever follows this patch.
+        if (line.size() < 2 || (line[0] != ' ' && line[0] != '+' && line[0] != '!') || !is_whitespace(line[1])) {
+            --m_line_number;
+            m_file.seekg(pos);
+            return;
+        }
         append_line(new_lines, line, newline);
     }
 
